@@ -43,6 +43,7 @@ inductive Tok where
 `shape` = ValueError("Operands … do not have same shape"), `stack` = IndexError (pop from empty list),
 `index` = IndexError (list index out of range), `state` = PydraStateError, `key` = KeyError,
 `value` = ValueError (validation in Task.split/combine, Submitter), `type` = TypeError,
+`assertion` = AssertionError (`State.depth`),
 `malformed` = a machine configuration the Python code cannot reach from a splitter. -/
 inductive Err where
   | shape | stack | index | state | key | value | type | malformed
@@ -51,20 +52,27 @@ inductive Err where
 /-! ### splitter2rpn -/
 
 mutual
-/-- `_ordering`: a one-element list/tuple is unwrapped (`[s]` gives the tokens of `s`: the
-    `s :: []` case below emits nothing after `toRPN s`), an n-ary node emits its elements with the sign after
-    every element but the first (`if i > 0: output_splitter.append(current_sign)`). -/
-def toRPN : Spl → List Tok
-  | .fld n => [.f n]
-  | .outer l => toRPNList .star l
-  | .inner l => toRPNList .dot l
-def toRPNList (sign : Tok) : List Spl → List Tok
-  | [] => []                      -- Python raises IndexError on a nested `[]`; excluded by `WellFormed`
-  | s :: rest => toRPN s ++ toRPNRest sign rest
-def toRPNRest (sign : Tok) : List Spl → List Tok
+/-- `_ordering(el, i, output_splitter, current_sign)`; `after` = `some current_sign` when `i > 0` (the sign appended by the
+    trailing `if i > 0: output_splitter.append(current_sign)`), `none` when `i = 0`.
+    A one-element list/tuple is unwrapped by a recursive call with the same `i` and `current_sign`, which already appends the
+    sign, followed by `return` (after the repair of D33; before it the sign was emitted twice at positions `i > 0`). -/
+def ordering : Spl → Option Tok → List Tok
+  | .fld n, after => .f n :: after.toList
+  | .outer l, after => orderingNode .star l after
+  | .inner l, after => orderingNode .dot l after
+def orderingNode (sign : Tok) : List Spl → Option Tok → List Tok
+  | [], _ => []                      -- Python raises IndexError on a nested `[]`; excluded by `Spl.wf`
+  | s :: rest, after =>
+    match rest with
+    | [] => ordering s after                                    -- len(el) == 1: recursive call, then `return`
+    | _ :: _ => ordering s none ++ orderingRest sign rest ++ after.toList   -- `_iterate_list`: i = 0, then i > 0
+def orderingRest (sign : Tok) : List Spl → List Tok
   | [] => []
-  | s :: rest => toRPN s ++ [sign] ++ toRPNRest sign rest
+  | s :: rest => ordering s (some sign) ++ orderingRest sign rest
 end
+
+/-- `splitter2rpn(splitter)` -/
+def toRPN (s : Spl) : List Tok := ordering s none
 
 mutual
 /-- `unwrap_splitter`: the fields, left to right. -/
@@ -468,56 +476,43 @@ def splitsGroups (rpn : List Tok) (combiner : List Name) : Except Err GroupsOut 
         else combineFinalGroups combiner s.groups g.list s.keys
       | _ => .error .malformed
 
+/-- `NodeExecution._split_task`: `attrs.evolve(task, **resolved)` where `resolved[name] = vals[state_key]` for the fields
+    found in the job's `states_val` entry; every other input keeps the value of the base task. -/
+def splitTask (base vals : List (Name × Nested)) : List (Name × Nested) :=
+  base.map (fun e => match dictGet? vals e.1 with
+                     | some x => (e.1, x)
+                     | none => e)
+
 /-! ### remove_inp_from_splitter_rpn -/
 
-structure RS where
-  sgn : List Nat          -- `stack_sgn` (positions `ii` in the reversed RPN), bottom first
-  inp : List Nat          -- `stack_inp`
-  fls : List Nat          -- `from_last_sign`, bottom first
-  deriving DecidableEq, Repr
+/-- one iteration of the loop of `remove_inp_from_splitter_rpn` (after the repair of D34): the RPN is evaluated on a stack
+    of possibly empty sub-splitters in RPN form; a removed input becomes the empty splitter and an operator is kept only
+    if both of its operands are still non-empty -/
+def removeStep (toRemove : List Name) (stack : List (List Tok)) : Tok → Except Err (List (List Tok))
+  | .f n => .ok ((if toRemove.contains n then [] else [.f n]) :: stack)
+  | sign =>
+    match stack with
+    | right :: left :: st =>
+      .ok ((if right.isEmpty then left else if left.isEmpty then right else left ++ right ++ [sign]) :: st)
+    | _ => .error .stack
 
-/-- drop the last element -/
-def dropLast' {α} (l : List α) : List α := l.take (l.length - 1)
-
-def removeStep (toRemove : List Name) (s : RS) (ii : Nat) : Tok → Except Err RS
-  | .f n =>
-    if !toRemove.contains n then
-      .ok { s with fls := (match s.fls.getLast? with
-                           | some c => dropLast' s.fls ++ [c + 1]
-                           | none => s.fls),
-                   inp := s.inp ++ [ii] }
-    else
-      match s.fls.getLast? with
-      | none => .ok s
-      | some c =>
-        if c ≤ 1 then
-          if s.sgn.isEmpty then .error .stack else .ok { s with sgn := dropLast' s.sgn, fls := dropLast' s.fls }
-        else
-          -- `stack_sgn.pop(-1 * from_last_sign.pop())`
-          if c > s.sgn.length then .error .stack
-          else .ok { s with sgn := s.sgn.eraseIdx (s.sgn.length - c), fls := dropLast' s.fls }
-  | _ => .ok { s with sgn := s.sgn ++ [ii], fls := s.fls ++ [0] }
-
-def removeLoop (toRemove : List Name) : RS → Nat → List Tok → Except Err RS
-  | s, _, [] => .ok s
-  | s, ii, t :: ts =>
-    match removeStep toRemove s ii t with
-    | .ok s' => removeLoop toRemove s' (ii + 1) ts
+def removeLoop (toRemove : List Name) : List (List Tok) → List Tok → Except Err (List (List Tok))
+  | st, [] => .ok st
+  | st, t :: ts =>
+    match removeStep toRemove st t with
+    | .ok st' => removeLoop toRemove st' ts
     | .error e => .error e
 
 def enumFrom' {α} : Nat → List α → List (Nat × α)
   | _, [] => []
   | i, x :: xs => (i, x) :: enumFrom' (i + 1) xs
 
-/-- `remove_inp_from_splitter_rpn`: the survivors `stack_sgn + stack_inp`, sorted by position descending in the
-    reversed RPN, i.e. in their original RPN order. -/
+/-- `remove_inp_from_splitter_rpn`: `stack.pop() if stack else []` -/
 def removeRPN (rpn : List Tok) (toRemove : List Name) : Except Err (List Tok) :=
-  let rev := rpn.reverse
-  match removeLoop toRemove ⟨[], [], []⟩ 0 rev with
+  match removeLoop toRemove [] rpn with
   | .error e => .error e
-  | .ok s =>
-    let keep := s.sgn ++ s.inp
-    .ok (((enumFrom' 0 rev).filter (fun e => keep.contains e.1)).map (·.2)).reverse
+  | .ok [] => .ok []
+  | .ok (top :: _) => .ok top
 
 /-! ### combiner_validation, prepare_states with a combiner, lazy.py grouping -/
 
@@ -612,6 +607,15 @@ def publicGroups (p : Prepared) (hasCombiner : Bool) : Out :=
   else if !hasCombiner then .flat (List.range p.statesInd.length)
   else if p.indLFinal.isEmpty then .flat (List.range p.statesInd.length)
   else .grouped ((List.range p.indLFinal.length).map (groupValues p))
+
+/-- `State.depth()` as called by `Submitter.__call__` (through `nest_output_type`) before anything runs: only its
+    `assert`s matter here.  `true` = no AssertionError. -/
+def depthCheck (rpn : List Tok) : Bool :=
+  let rec go : Nat → List Tok → Option Nat
+    | n, [] => some n
+    | n, .f _ :: ts => go (n + 1) ts
+    | n, _ :: ts => if n ≥ 2 then go (n - 1) ts else none
+  go 0 rpn == some 1
 
 /-! ### Task.split / Task.combine / Submitter.__call__ validation -/
 
